@@ -157,7 +157,7 @@ func (s *Sim) startGateway() {
 			gc.MqttPassword = []byte{}
 		}
 	}
-	ctx, cancel := context.WithCancel(context.Background())
+	ctx, cancel := simrt.WithCancel(context.Background())
 	s.gwCancel = cancel
 	gw := gateway.NewGateway(recLogger{s, "gw"}, gc)
 	done := make(chan error, 1)
